@@ -527,6 +527,7 @@ def run_g(o: Outcome, cfgs):
     for cfg, r in zip(cfgs, rs):
         o.add_tlc(cfg + " (M: MachineOK on every sequence)", r)
         cases += [c for c in r.cases if c["doc"]]
+    check_html_table(o, rs[0])
     # (TLC's -coverage runs out of memory on this functional spec; the model has a single action
     # "append one chunk", so coverage is reported per chunk / per node kind instead)
     per_chunk = {}
@@ -566,6 +567,27 @@ def run_g(o: Outcome, cfgs):
     mid = cases[len(cases) // 2]
     o.sample({"chunks": mid["doc"], "text": spellings(mid["doc"])[0], "machine_tree": mid["tree"]})
     return cases
+
+
+def check_html_table(o: Outcome, r):
+    """The tag data transcribed into Parser.tla against the working tree's (DRIFT if they differ)."""
+    t = r.tagged("HTMLTABLE")
+    if not t:
+        raise common.TLCError("Gen_Parser did not print its html table")
+    common.use_repo()
+    from wikitextprocessor.wikihtml import ALLOWED_HTML_TAGS
+    with Scratch("c01h-") as d:
+        ctx = pt.new_ctx(d)
+        pp = {k: set(v) for k, v in ctx.html_permitted_parents.items()}
+        ctx.close_db_conn()
+    tags = set(t[0])
+    real = {k: {"parents": sorted(pp.get(k, set()) & tags),
+                "closenext": sorted(ALLOWED_HTML_TAGS[k].get("close-next", [])),
+                "noend": bool(ALLOWED_HTML_TAGS[k].get("no-end-tag"))} for k in tags}
+    model = {k: {"parents": sorted(v["parents"]), "closenext": sorted(v["closenext"]), "noend": v["noend"]} for k, v in t[0].items()}
+    o.extra["html_table_matches_working_tree"] = (real == model)
+    if real != model:
+        o.note_drift({"html_table_model": model, "html_table_real": real})
 
 
 def run_demos(o: Outcome):
